@@ -423,6 +423,14 @@ impl<'tcx> Cx<'tcx> {
                 .collect();
             o.push(("upvars", J::Arr(caps)));
         }
+        {
+            let g = tcx.generics_of(owner);
+            let mut names = vec![];
+            for i in 0..g.count() {
+                names.push(s(g.param_at(i, tcx).name.as_str()));
+            }
+            o.push(("generics", J::Arr(names)));
+        }
         o.push(("argc", n(body.arg_count as i128)));
         // locals
         let mut names: Vec<Option<String>> = vec![None; body.local_decls.len()];
@@ -541,6 +549,9 @@ impl<'tcx> Cx<'tcx> {
                         AssertKind::OverflowNeg(a) => ("overflow_neg", vec![a]),
                         AssertKind::DivisionByZero(a) => ("div_zero", vec![a]),
                         AssertKind::RemainderByZero(a) => ("rem_zero", vec![a]),
+                        AssertKind::MisalignedPointerDereference { .. } => ("ptr_misaligned", vec![]),
+                        AssertKind::NullPointerDereference => ("ptr_null", vec![]),
+                        AssertKind::InvalidEnumConstruction(_) => ("invalid_enum", vec![]),
                         _ => ("other", vec![]),
                     };
                     t.push(("msg", s(mk)));
